@@ -816,3 +816,58 @@ Proof.
   apply shr_bind; [apply shr1_shr, shr1_read_int32|]. intros v. destruct (v <? 0); [apply shr_fail|].
   apply shr_bind; [apply shr_ralloc|]. intros u. apply shr_bind; [apply shr_fread|intros; apply shr_ret].
 Qed.
+
+Lemma shr1_read_string : shr1 (read_string false None).
+Proof.
+  unfold read_string. apply shr1_bind; [apply shr1_read_int32|]. intros l. destruct (l <? 0); [apply shr_fail|]. destruct (l =? INT_MAX); [apply shr_fail|].
+  apply shr_bind; [apply shr_ralloc|intros u; apply shr_fread].
+Qed.
+
+Lemma props_st_model : forall fuel n s, (List.length s <= List.length fuel)%nat -> Forall byte s ->
+  match rrep fuel n (read_prop false None) s with Ok _ => props_st (Z.to_nat n) s = SBDF_OK | Err e => props_st (Z.to_nat n) s = e end.
+Proof.
+  induction fuel as [|x fuel IH]; intros n s Hl Hs; cbn [rrep].
+  - destruct s; [|cbn [List.length] in Hl; lia].
+    destruct (n <=? 0) eqn:En; [replace (Z.to_nat n) with 0%nat by lia; reflexivity|].
+    replace (Z.to_nat n) with (S (Z.to_nat (n - 1))) by lia. cbn [props_st].
+    assert (E : read_string false None [] = Err SBDF_ERROR_IO) by reflexivity.
+    unfold read_prop, rd_bind. rewrite E. reflexivity.
+  - destruct (n <=? 0) eqn:En; [replace (Z.to_nat n) with 0%nat by lia; reflexivity|].
+    replace (Z.to_nat n) with (S (Z.to_nat (n - 1))) by lia. cbn [props_st].
+    unfold read_prop at 1. unfold rd_bind, rret.
+    destruct (read_string false None s) as [[nm s1]|e1] eqn:E1; [|reflexivity].
+    destruct (shr1_read_string s nm s1 Hs E1) as (Hs1 & Hl1).
+    destruct (Va.va_read false None s1) as [[va s2]|e2] eqn:E2; [|reflexivity].
+    destruct (shr1_va_read s1 va s2 Hs1 E2) as (Hs2 & Hl2).
+    specialize (IH (n - 1) s2 ltac:(cbn [List.length] in Hl; lia) Hs2).
+    destruct (rrep fuel (n - 1) (read_prop false None) s2) as [[l s3]|e3]; exact IH.
+Qed.
+
+(* cs_st is the status of the L1 model's cs_read, on every byte stream *)
+Theorem cs_st_model sx : Forall byte sx -> match Slice.cs_read false None sx with Ok _ => cs_st sx = SBDF_OK | Err e => cs_st sx = e end.
+Proof.
+  intros Hs. unfold Slice.cs_read, cs_st, rd_bind, rfail, rret, ralloc, alloc_ok.
+  destruct (sec_expect SBDF_COLUMNSLICE_SECTIONID sx) as [[u s1]|e0] eqn:E0; [|reflexivity].
+  pose proof (proj1 (shr_sec_expect _ sx u s1 Hs E0)) as Hs1.
+  destruct (Va.va_read false None s1) as [[va s2]|e1] eqn:E1; [|reflexivity].
+  pose proof (proj1 (shr1_va_read s1 va s2 Hs1 E1)) as Hs2.
+  destruct (read_int32 false s2) as [[v s3]|e2] eqn:E2; [|reflexivity].
+  pose proof (proj1 (shr1_read_int32 s2 v s3 Hs2 E2)) as Hs3.
+  destruct (v <? 0) eqn:Ev; [reflexivity|]. change (INT_MAX / 16) with 134217727.
+  destruct (v =? 0) eqn:Ez.
+  - assert (v = 0) by lia. subst v. change (134217727 <? 0) with false. cbv iota. unfold rrepeat. destruct s3; reflexivity.
+  - destruct (134217727 <? v) eqn:Eb; [reflexivity|]. unfold rrepeat.
+    pose proof (props_st_model s3 v s3 (Nat.le_refl _) Hs3) as P.
+    destruct (rrep s3 v (read_prop false None) s3) as [[ps s4]|e3]; exact P.
+Qed.
+
+(* the source's sbdf_cs_read returns the status of the L1 model's cs_read whenever no allocation fails *)
+Theorem cs_read_status_is_the_models rf rp fo po k sx m h : k < 0 -> Forall byte sx -> cs_nobit sx ->
+  exists f0, forall f, (f0 <= f)%nat -> exists st fin,
+    callC prog_env f prog_sbdf_cs_read [VPtr rf fo; VPtr rp po] m k sx h = OReturn (VInt st) fin /\
+    match Slice.cs_read false None sx with Ok _ => st = SBDF_OK | Err e => st = e end.
+Proof.
+  intros Hk Hs (NB & NBP). destruct (cs_read_full_source rf rp fo po k sx m h Hs NB NBP) as (f0 & F). exists f0. intros f Hf.
+  destruct (F f Hf) as (st & fin & C & _ & _ & CST). exists st, fin. split; [exact C|]. rewrite (CST Hk).
+  exact (cs_st_model sx Hs).
+Qed.
